@@ -35,6 +35,9 @@ def configs(tier):
         # one single-precision and one other-grid representative per halo
         for h in sl.HALOS:
             yield {"prof": "mostm_s", "grid": sl.GRIDS[1][0], "dom": sl.GRIDS[1][1], "halo": h, "modes": "full", "prec": "single"}
+        # a grid whose spacings (2.5 m, 7.5 m) make the padded offset px*dx fractional while tower coordinates are whole metres
+        for k, h in enumerate((8.9, 7.5, None, 0.0)):
+            yield {"prof": sl.PROFILE_SETS[k % 4], "grid": [8, 6], "dom": [20.0, 45.0], "halo": h, "modes": "full", "prec": "double"}
         # odd grid sizes (odd padded sizes, clamped mode counts)
         for k, (g, h) in enumerate(itertools.product(sl.ODD_GRIDS, (0.0, None, 13.0, 20.0))):
             yield {"prof": sl.PROFILE_SETS[k % 4], "grid": g[0], "dom": g[1], "halo": h, "modes": [64, 64], "prec": "double"}
@@ -57,17 +60,24 @@ def case_reciprocity(case):
     halo = case["halo"]
     modes = sl.resolve_modes(case["modes"], nx, ny, dom, halo)
     prec = case["prec"]
+    sl.pollute(*sl.padded_size(nx, ny, dom, halo)[:2], dx, dy)
     tol = 1e-9 if prec == "double" else 2e-5
     kw = dict(modes=modes, halo=halo, precision=prec)
     ncell = nx * ny
     F = np.zeros((2, 2, ncell, ncell))  # [conc/flx, level, m, s]
     D = np.zeros((2, 2, ncell, ncell))  # [conc/flx, level, s, m]
     q0 = np.zeros((ny, nx))
+    buf = np.zeros((ny, nx))  # ONE preallocated source map, refilled in place for every forward run (a legitimate usage pattern)
     for m, (j, i) in enumerate(itertools.product(range(ny), range(nx))):
-        _, c, f = S(q0, z, prof, dom, levels, meas_pt=(i * dx, j * dy), footprint=True, **kw)
+        mp = (i * dx, j * dy)
+        if m % 2 == 0 and float(mp[0]).is_integer() and float(mp[1]).is_integer():
+            mp = (int(mp[0]), int(mp[1]))  # whole-metre tower coordinates written as integers
+        _, c, f = S(q0, z, prof, dom, levels, meas_pt=mp, footprint=True, **kw)
         F[0, :, m, :] = np.asarray(c).reshape(2, ncell)
         F[1, :, m, :] = np.asarray(f).reshape(2, ncell)
-        _, c, f = S(sl.impulse(ny, nx, j, i), z, prof, dom, levels, **kw)
+        buf[...] = 0.0
+        buf[j, i] = 1.0
+        _, c, f = S(buf, z, prof, dom, levels, **kw)
         D[0, :, m, :] = np.asarray(c).reshape(2, ncell)
         D[1, :, m, :] = np.asarray(f).reshape(2, ncell)
     v = []
